@@ -367,7 +367,7 @@ fn handle_xgroup_destroy(storage: &Arc<StorageEngine>, db: usize, parts: &[RespF
     let stream = match storage.get(db, key)? {
         GetResult::Found(Value::Stream(stream)) => stream,
         GetResult::Found(_) => return Ok(RespFrame::error("WRONGTYPE Operation against a key holding the wrong kind of value")),
-        _ => return Ok(RespFrame::Integer(0)), // Key doesn't exist
+        _ => return Ok(RespFrame::error("ERR The XGROUP subcommand requires the key to exist")),
     };
     
     // Destroy the group
@@ -439,13 +439,13 @@ fn handle_xgroup_delconsumer(storage: &Arc<StorageEngine>, db: usize, parts: &[R
     let stream = match storage.get(db, key)? {
         GetResult::Found(Value::Stream(stream)) => stream,
         GetResult::Found(_) => return Ok(RespFrame::error("WRONGTYPE Operation against a key holding the wrong kind of value")),
-        _ => return Ok(RespFrame::Integer(0)),
+        _ => return Ok(RespFrame::error("ERR The XGROUP subcommand requires the key to exist")),
     };
     
     // Get the consumer group
     let group = match stream.get_consumer_group(&group_name) {
         Some(group) => group,
-        None => return Ok(RespFrame::Integer(0)),
+        None => return Ok(RespFrame::error(format!("NOGROUP No such consumer group {} for stream", group_name))),
     };
     
     // Delete the consumer and return pending count
